@@ -276,7 +276,15 @@ func TestProp(t *testing.T) {
 		if rec.Env.Thorough() {
 			lens, gaps = []int{0, 1, 2, 3, 4, 5, 6, 7, 8, 9, 10, 11, 12, 13, 14, 15, 16, 20, 24, 30}, []int{0, 1, 2, 3, 4, 5, 6, 7, 8, 12, 16, 20}
 		}
-		gen.SmallBoxFilesAtEdge(lens, gaps, func(name, kind string, data []byte) {
+		atEdge := func(visit func(name, kind string, data []byte)) {
+			gen.SmallBoxFilesAtEdge(lens, gaps, visit)
+			large := []int{0}
+			if rec.Env.Thorough() {
+				large = []int{0, 4, 8}
+			}
+			gen.LargeBoxFilesAtEdge(large, visit)
+		}
+		atEdge(func(name, kind string, data []byte) {
 			idx++
 			if !complete || idx%rec.Env.Shards != rec.Env.Shard {
 				return
